@@ -53,6 +53,10 @@ class VecRef:
             if not (a[1] <= a[2] <= len(l)):
                 return None
             del l[a[1]:a[2]]
+        elif k == "erase1" and n == 2:
+            if not (a[1] < len(l)):
+                return None
+            del l[a[1]]
         elif k == "resize" and n == 3:
             if a[1] < len(l):
                 del l[a[1]:]
@@ -552,6 +556,11 @@ class StrRef:
             if p is None or p >= len(s):
                 return None
             del s[p]
+        elif k == "insat" and n == 3:
+            p = num(a[1]); c = num(a[2])
+            if p is None or c is None or p > len(s) or not (1 <= c <= 65535):
+                return None
+            s.insert(p, c); self.buf[i] = True
         elif k == "eraser" and n == 3:
             x = num(a[1]); y = num(a[2])
             if x is None or y is None or not (x <= y <= len(s)):
@@ -859,7 +868,7 @@ def gen_vec(r, maxops, alias=True):
     ref = VecRef(); ops = []
     nops = r.range(1, maxops)
     small = r.chance(1, 2)
-    w = [("push", 10), ("pop", 3), ("ins1", 6), ("insn", 6), ("insr", 6), ("erase", 5), ("resize", 3), ("reserve", 3),
+    w = [("push", 10), ("pop", 3), ("ins1", 8), ("insn", 6), ("insr", 6), ("erase", 5), ("erase1", 3), ("resize", 3), ("reserve", 3),
          ("clear", 1), ("assign", 2), ("copy", 3), ("swap", 2), ("newcap", 1), ("pushself", 1)]
     tries = 0
     while len(ops) < nops and tries < 4 * nops:
@@ -885,6 +894,10 @@ def gen_vec(r, maxops, alias=True):
         elif k == "erase":
             a = r.range(0, len(l)); b = r.range(a, min(len(l), a + 4))
             line = "vec erase %d %d %d" % (i, a, b)
+        elif k == "erase1":
+            if not l:
+                continue
+            line = "vec erase1 %d %d" % (i, r.below(len(l)))
         elif k == "resize":
             line = "vec resize %d %d %d" % (i, r.range(0, len(l) + 6), x)
         elif k == "reserve":
@@ -1097,12 +1110,14 @@ def gen_str(r, maxops, defects=True):
         k = r.weighted([("app", 9), ("appstr", 3), ("appsub", 3), ("appn", 4), ("push", 4), ("ins", 6), ("insn", 4), ("erase", 6),
                         ("eraseat", 3), ("clear", 1), ("resize", 4), ("reserve", 2), ("assign", 3), ("assignn", 1),
                         ("assignsub", 4), ("substr", 4), ("swap", 2), ("new", 1), ("eraser", 3), ("assignit", 2),
-                        ("appz", 3), ("assignz", 2), ("insz", 2), ("assignp", 2), ("ctor", 2)])
+                        ("appz", 3), ("assignz", 2), ("insz", 2), ("assignp", 2), ("ctor", 2), ("insat", 5)])
         c = r.range(1, 9)
         if k == "app":
             line = "str app %d %s" % (i, us(r.weighted([(0, 1), (1, 3), (r.range(2, 6), 5), (r.range(7, 20), 1)])))
         elif k == "ctor":
             line = "str ctor %d %s" % (i, us(r.range(0, 6)))
+        elif k == "insat":
+            line = "str insat %d %d %d" % (i, r.range(0, len(s)), c)
         elif k in ("appz", "assignz", "insz", "assignp"):
             xs = [r.range(1, 9) for _ in range(r.range(0, 6))]
             if k != "assignp" and xs and r.chance(1, 4):
